@@ -302,6 +302,34 @@ func runC29(c *an.Ctx) {
 		}
 	}
 	c.RequireMin("guarded appends to the participant list", nApp, 2)
+	// a membership set kept as a bit mask: a shift by a peer index must be bounded by the word size (in Go `1<<i` is
+	// 0 for i >= 64, so such a member would never be recorded and would be drawn again and again)
+	for _, g := range an.InlineReach(cpp) {
+		for _, b := range g.Blocks {
+			for _, in := range b.Instrs {
+				sh, ok := in.(*ssa.BinOp)
+				if !ok || sh.Op != token.SHL {
+					continue
+				}
+				if _, isK := sh.Y.(*ssa.Const); isK {
+					continue
+				}
+				bitsz := int64(64)
+				if bt, isB := sh.Type().Underlying().(*types.Basic); isB {
+					switch bt.Kind() {
+					case types.Uint32, types.Int32:
+						bitsz = 32
+					case types.Uint16, types.Int16:
+						bitsz = 16
+					case types.Uint8, types.Int8:
+						bitsz = 8
+					}
+				}
+				c.Check(an.ProveLeqConstAt(g, sh, sh.Y, bitsz-1), "distinct|calcParticipantPeers|shift-bounded|"+an.FuncName(g), "a bit-mask membership set records every index: the shift count is bounded by the word size", c.P.Rel(sh.Pos()),
+					"the shift count is not bounded below the word size: indexes at or above it are silently dropped from the set")
+			}
+		}
+	}
 	// calcParticipant returns only table elements or the out-of-range marker
 	okRet := true
 	for _, r := range an.Returns(cp) {
